@@ -39,6 +39,13 @@ open Ckl.C17
 #print axioms ofMillis_toMillis
 #print axioms ofMillis_spec
 #print axioms toMillis_ofMillis
+#print axioms diffDays_addDays
+#print axioms diffDays_addDays_rev
+#print axioms diffDays_antisymm
+#print axioms diffDays_self
+#print axioms diffDays_spec
+#print axioms diffDays_same_day
+#print axioms diffDays_nextDay
 #print axioms daysBeforeYear_closed
 #print axioms daysBeforeYear_succ
 #print axioms daysBeforeYear_ge
